@@ -375,7 +375,7 @@ def _transform_to_node_history_(infection_times, recovery_times, tmin, SIR = Tru
             node_history[node][0].append(time)
             node_history[node][1].append('I')
         for node, time in recovery_times.items():
-            if time == tmin:
+            if time == tmin and node not in infection_times: #recovered from the start
                 node_history[node] = ([], [])
             node_history[node][0].append(time)
             node_history[node][1].append('R')        
